@@ -73,6 +73,35 @@ def run(tier):
                       acc.bad('specific-code-weight-differs-from-table', case, 'code %r = %g kg, table reports %r' % (r, ckg, w))
                   else:
                       acc.nontrivial += 1
+    # ---- arguments that are str instances of another class (a StrEnum member as applications use for choices, a plain str subclass): equal to the plain
+    #      text in every respect incl. str() and format(), so the answer must be the one the plain text gets.  (Members of a str-MIXIN Enum are left out:
+    #      their str() is 'Event.SP', and the pinned tree itself answers get_specific_event_code(Event.SP, ...) with 'Event.SP7.26K' - no promise there.)
+    import enum
+    AgeGroup = enum.StrEnum('AgeGroup', {l: l for l in PRODUCED})
+    Event = enum.StrEnum('Event', {e: e for e in THROWS})
+    Gender = enum.StrEnum('Gender', {'M': 'M', 'F': 'F'})
+
+    class Txt(str):
+        pass
+    for ev in THROWS:
+        for g in ('M', 'F'):
+            for label in PRODUCED:
+                want = None
+                for how, (e2, g2, l2) in (('plain', (ev, g, label)), ('enum-label', (ev, g, AgeGroup[label])), ('subclass-label', (ev, g, Txt(label))),
+                                          ('enum-event', (Event[ev], g, label)), ('enum-gender', (ev, Gender[g], label)), ('subclass-all', (Txt(ev), Txt(g), Txt(label)))):
+                    acc.n += 1
+                    try:
+                        got = (giw(e2, g2, l2), gsec(e2, g2, l2))
+                        got = tuple(str.__str__(x) if isinstance(x, str) else x for x in got)
+                    except Exception as e:
+                        got = 'raised %s' % type(e).__name__
+                    if how == 'plain':
+                        want = got
+                    elif got != want:
+                        acc.bad('answer-depends-on-the-class-of-a-text-argument:%s' % how, dict(event=ev, gender=g, age_group=label, how=how),
+                                'plain text arguments give %r, %s gives %r' % (want, how, got))
+                    else:
+                        acc.nontrivial += 1
     # ---- masters never get heavier
     for ev in THROWS:
       for g in ('M', 'F'):
